@@ -139,6 +139,9 @@ pub enum Mut {
 	RecId(u8),
 	SigMalleate,
 	Upper,
+	/// rewrite the `n` field with another valid key, or add an `n` field (the signer's own key when
+	/// `key` is even) to an invoice that identifies its payee by recovery
+	PayeeField { key: u8, at: u16 },
 }
 
 #[derive(Clone, Debug, Serialize, Deserialize)]
@@ -311,9 +314,13 @@ fn mutation() -> impl Strategy<Value = Mut> + Clone {
 		3 => timestamp().prop_map(|t| Mut::Ts(t & MAX_TIMESTAMP)),
 		8 => (any::<u16>(), fop).prop_map(|(idx, op)| Mut::Field { idx, op }),
 		1 => (any::<u16>(), 0u8..32, pvec(0u8..32, 0..8)).prop_map(|(idx, tag, payload)| Mut::Insert { idx, tag, payload }),
-		1 => prop_oneof![3 => 0u8..4, 1 => any::<u8>()].prop_map(Mut::RecId),
-		1 => Just(Mut::SigMalleate),
-		1 => Just(Mut::Upper),
+		// (nested: prop_oneof! boxes its arms beyond ten alternatives, and a boxed strategy is not Send)
+		5 => prop_oneof![
+			1 => prop_oneof![3 => 0u8..4, 1 => any::<u8>()].prop_map(Mut::RecId),
+			1 => Just(Mut::SigMalleate),
+			1 => Just(Mut::Upper),
+			2 => (any::<u8>(), any::<u16>()).prop_map(|(key, at)| Mut::PayeeField { key, at }),
+		],
 	]
 }
 
@@ -759,6 +766,27 @@ fn apply(d: &Decoded, m: &Mut) -> Option<(String, Vec<u8>)> {
 			data.extend(rc::bytes_to_symbols(&sig));
 			Some((d.hrp.clone(), data))
 		},
+		Mut::PayeeField { key: k, at } => {
+			let signer_sym = |i: u8| rc::bytes_to_symbols(&key(i).1.serialize());
+			match d.fields.iter().position(|f| f.tag == 19 && f.end - f.start == 3 + 53) {
+				Some(i) => {
+					let cur = d.data[d.fields[i].start + 3..d.fields[i].end].to_vec();
+					let mut new = signer_sym(*k);
+					if new == cur {
+						new = signer_sym(k.wrapping_add(1));
+					}
+					Some((d.hrp.clone(), field_splice(d, i, mk_field(19, &new))))
+				},
+				None => {
+					let pos = if d.fields.is_empty() { 7 } else { let i = pick(*at, d.fields.len() + 1); if i == d.fields.len() { sig_start } else { d.fields[i].start } };
+					let mut data = d.data[..pos].to_vec();
+					// even: the original signer's key (recovered from nothing here: use the key of this index)
+					data.extend(mk_field(19, &signer_sym(*k)));
+					data.extend_from_slice(&d.data[pos..]);
+					Some((d.hrp.clone(), data))
+				},
+			}
+		},
 		Mut::SigMalleate => {
 			// (r, s, v) -> (r, n - s, v ^ 1): the other valid ECDSA encoding of the same signature
 			let mut sig = rc::symbols_to_bytes(&d.data[sig_start..], false);
@@ -794,6 +822,7 @@ fn mut_label(m: &Mut) -> &'static str {
 		Mut::RecId(_) => "recid",
 		Mut::SigMalleate => "sig-malleate",
 		Mut::Upper => "upper",
+		Mut::PayeeField { .. } => "payee-field",
 	}
 }
 
@@ -979,6 +1008,15 @@ pub fn oracle(c: &Case, ctx: &mut Ctx) -> CaseResult {
 			m => {
 				// fall back to a signed-symbol mutation when the drawn one does not apply / changes nothing
 				let fallback = Mut::SignedSym { pos: (evals as u16).wrapping_mul(7919), xor: 1 + (evals % 31) as u8 };
+				// an even PayeeField key stands for "the signer's own key"
+				let own;
+				let m = match m {
+					Mut::PayeeField { key: k, at } if k % 2 == 0 => {
+						own = Mut::PayeeField { key: inv_c.key & 63, at: *at };
+						&own
+					},
+					m => m,
+				};
 				let (kind, (h2, d2)) = match apply(&d, m).filter(|(h2, d2)| *h2 != d.hrp || *d2 != d.data) {
 					Some(x) => (mut_label(m), x),
 					None => ("signed-sym", apply(&d, &fallback).expect("always applicable")),
